@@ -230,6 +230,7 @@ fn check_type<T: Elem, U: Elem>(rep: &mut Report, r: &mut Rng, case: u64, miri: 
         h.query_format = r.boundary_u16();
         h.ec = r.boundary_u32();
         h.body_length = 12345; // garbage: must be overwritten
+        h.body_format = *r.pick(&[0u16, 1, 2, 3, 77]); // whatever the caller's header carried, the bulk writer emits BEVE
         let mut streamed = vec![];
         let res = catching(|| repe::write_message_typed_slice(&mut streamed, h, &q, &xs));
         let mut owned = bulk.clone();
@@ -319,6 +320,47 @@ fn check_type<T: Elem, U: Elem>(rep: &mut Report, r: &mut Rng, case: u64, miri: 
             }
             Ok(Err(e)) => rep.violation(format!("C08:aligned:route-error:{}", T::NAME), format!("{} x{n} query {ql} misalign {mis}: {e}", T::NAME), desc.clone()),
             Err(p) => rep.violation(format!("C08:panic:aligned-route:{}", panic_site(&p)), p, desc.clone()),
+        }
+    }
+    // the aligned form through the OWNED entry points of the borrowing route (what a middleware-wrapped
+    // route or the WebSocket off-reader path uses): same elements, same answer
+    {
+        let mw_router = Router::new()
+            .with_typed_slice_ref("/r", {
+                let s3 = seen.clone();
+                move |ys: &[T]| -> Result<Vec<T>, (ErrorCode, String)> {
+                    *s3.lock().unwrap() = Some(Seen { addr: ys.as_ptr() as usize, bits: bits_of(ys) });
+                    Ok(ys.iter().rev().cloned().collect())
+                }
+            })
+            .with_middleware(|req: &Message, next: repe::Next<'_>| next.run(req));
+        let hm = mw_router.get("/r").unwrap();
+        let w = amsg.to_vec();
+        let ctx = CallContext::detached("/r");
+        let runs: [(&str, Box<dyn Fn() -> Result<Message, repe::RepeError> + '_>); 4] = [
+            ("handle", Box::new(|| h.handle(&amsg))),
+            ("handle_with_ctx", Box::new(|| h.handle_with_ctx(&amsg, &ctx))),
+            ("middleware.handle", Box::new(|| hm.handle(&amsg))),
+            ("middleware.handle_view", Box::new(|| hm.handle_view(&MessageView::from_slice(&w).unwrap(), &ctx))),
+        ];
+        let mut rev = want.clone();
+        rev.reverse();
+        for (name, f) in runs.iter() {
+            *seen.lock().unwrap() = None;
+            rep.eval();
+            match catching(|| f()) {
+                Ok(Ok(resp)) => {
+                    let s = seen.lock().unwrap().take();
+                    let back = resp.decode_typed_slice::<T>().map(|v| bits_of(&v)).ok();
+                    if resp.header.ec != 0 || s.as_ref().map(|s| &s.bits) != Some(&want) || back.as_ref() != Some(&rev) {
+                        rep.violation(format!("C08:aligned:owned-path:{name}"), format!("{} x{n} query {ql}: the aligned form through {name} answered ec {} ({}), handler invoked: {}", T::NAME, resp.header.ec, String::from_utf8_lossy(&resp.body[..resp.body.len().min(80)]), s.is_some()), desc.clone());
+                    } else {
+                        rep.count("aligned_owned_path_ok", 1);
+                    }
+                }
+                Ok(Err(e)) => rep.violation(format!("C08:aligned:owned-path:{name}"), format!("{} x{n} query {ql}: the aligned form through {name} returned Err({e})", T::NAME), desc.clone()),
+                Err(p) => rep.violation(format!("C08:panic:aligned-owned-path:{}", panic_site(&p)), p, desc.clone()),
+            }
         }
     }
     // the borrowing route is a superset: it must accept the regular and the generic encodings too
